@@ -370,6 +370,13 @@ func c17Write(rec *vk.Rec, ci int) {
 		nw = r.Range(50, 70)
 		sv.SetWriteHook(func(int) { time.Sleep(20 * time.Millisecond) })
 	}
+	// some cases build a backlog of one to several megabytes (rate-limited connection, many large writes back to back): the
+	// queue is then larger than any internal chunk a flush might work in
+	backlog := ci%40 == 14 && !slow && !slowSock
+	if backlog {
+		rate = []int{1, 3}[r.Intn(2)]
+		nw = r.Range(24, 90)
+	}
 	conn := listener.VerifNewConn(sv, rate)
 	defer conn.Close()
 	var want []byte
@@ -378,6 +385,9 @@ func c17Write(rec *vk.Rec, ci int) {
 		sz := r.Range(1, 200)
 		if r.Chance(8) {
 			sz = r.Range(2000, 65536)
+		}
+		if backlog {
+			sz = r.Range(30000, 65536)
 		}
 		p := pattern(r, sz, []byte{byte(i), byte(i >> 8)})
 		want = append(want, p...)
@@ -413,6 +423,9 @@ func c17Write(rec *vk.Rec, ci int) {
 	}
 	if slowSock {
 		rec.Inc("transfers_on_slow_socket")
+	}
+	if backlog {
+		rec.Inc("transfers_with_megabyte_backlog")
 	}
 	rec.Case(vk.Hash("write", rate, nw, len(want), slow), queuedSeen && nw >= 2)
 	if !bytes.Equal(got, want) {
